@@ -363,7 +363,11 @@ def main(tier, seed, replay):
             samples.append(slim(c))
         if len(samples) >= 6 and len(seen) == 3:
             break
+    # end to end (tracking on): MutateTickReceived fires exactly once, when every message of the tick was applied
+    import corelib
+    e2e = corelib.track_e2e(PID, seed, 100 if quick else 2000, verdict)
     coverage = {
+        "end_to_end_tracking": e2e,
         "states": states,
         "transitions": generated,
         "traces_validated_against_impl": res["runs"],
@@ -389,7 +393,7 @@ def main(tier, seed, replay):
     L.write_evidence(PID, tier, seed, "model_checking", coverage, time.time() - t0,
                      violations=len(verdict.violations),
                      assumptions=[
-                         "pure half of C12 only; MutateTickReceived end to end is checked by the protocol model",
+                         "the pure mechanisms are decided by TickConfirm*; MutateTickReceived end to end is decided by trace validation of executions with tracking on against spec/Core.tla (cli.notif) and the monitor C12e2e of spec/CoreTrace.tla",
                          "tick offsets in TLC are integers; their order is RepliconTick::cmp by the TickOrder part "
                          "(valid below half the range) and by replay at bases 0, 2^31-70, 2^32-70",
                          "harness build has debug assertions and overflow checks on; release arithmetic is covered "
